@@ -1,8 +1,142 @@
-/- Driver handler owned by property C18: `c18 <args…>` requests. -/
+/- Driver handler owned by property C18: `c18 <args…>` requests.
+
+  c18 session <cfg> L <n> <lexcode>*n  P <k> (<name> <tyid>)*k  O <k> <name>*k
+              A <nadds> <items>*nadds  Q <nq> (<len> <name>*len)*nq
+
+  cfg      4 bits `walkFromStart emptyPathPanics ignoreSpan primRecursive` (e.g. 0000 = Cfg.fixed)
+  lexcode  first + 8*more + 16*whole, first: 0 end-of-input, 1 lexer error, 2 ident, 3 keyword, 4 other token
+  items    <k> item*k ;  item = M name items | T name id | F name np ty*np ty tag
+           | C name ty tag | I id items | U np (len name*len)*np
+  ty       u | r id | o ty | l ty | v ty ty | e ty ty
+
+  answer   `<outcome>*` (one per add until the first that is not ok: ok / err:<kind> / panic:<site>)
+           `|` `<resolution>*nq` (after the last ok add; `-` if some add failed)
+-/
 import Driver.Util
+import RotoV.Model.Registration
 
 namespace Driver.C18
+open RotoV.Reg
 
-def handle (_args : List String) : String := "bad-op"
+abbrev P := StateT (List String) Option
+
+def tok : P String := fun s => match s with | [] => none | t :: r => some (t, r)
+def nat : P Nat := do let t ← tok; (t.toNat? : Option Nat)
+def expect (w : String) : P Unit := do let t ← tok; if t = w then pure () else failure
+
+def rep {α} (p : P α) : Nat → P (List α)
+  | 0 => pure []
+  | n + 1 => do let a ← p; let r ← rep p n; pure (a :: r)
+
+partial def ty : P RustTy := do
+  match ← tok with
+  | "u" => pure .unit
+  | "r" => do pure (.reg (← nat))
+  | "o" => do pure (.option (← ty))
+  | "l" => do pure (.list (← ty))
+  | "v" => do let a ← ty; let r ← ty; pure (.verdict a r)
+  | "e" => do let a ← ty; let r ← ty; pure (.result a r)
+  | _ => failure
+
+def path : P (List Name) := do let n ← nat; rep nat n
+
+def ofList : List Item → Items
+  | [] => .nil
+  | i :: is => .cons i (ofList is)
+
+mutual
+partial def items : P Items := do
+  let k ← nat
+  let l ← repItem k
+  pure (ofList l)
+partial def repItem : Nat → P (List Item)
+  | 0 => pure []
+  | n + 1 => do let a ← item; let r ← repItem n; pure (a :: r)
+partial def item : P Item := do
+  match ← tok with
+  | "M" => do let n ← nat; let ch ← items; pure (.module n ch)
+  | "T" => do let n ← nat; let id ← nat; pure (.type n id)
+  | "F" => do
+    let n ← nat; let np ← nat; let ps ← rep ty np; let r ← ty; let tag ← nat
+    pure (.function n ps r tag)
+  | "C" => do let n ← nat; let t ← ty; let tag ← nat; pure (.constant n t tag)
+  | "I" => do let id ← nat; let ch ← items; pure (.impl id ch)
+  | "U" => do let np ← nat; let ps ← rep path np; pure (.use ps)
+  | _ => failure
+end
+
+def lexOf (c : Nat) : Lex :=
+  let f := c % 8
+  { first := match f with
+      | 0 => none | 1 => some none | 2 => some (some .ident)
+      | 3 => some (some .keyword) | _ => some (some .other),
+    more := (c / 8) % 2 = 1,
+    whole := (c / 16) % 2 = 1 }
+
+def cfgOf (s : String) : Option Cfg :=
+  match s.toList with
+  | [a, b, c, d] => some ⟨a = '1', b = '1', c = '1', d = '1'⟩
+  | _ => none
+
+def showErr : Err → String
+  | .invalidName => "invalidName" | .nameTaken => "nameTaken" | .typeTwice => "typeTwice"
+  | .unregistered => "unregistered" | .nestedInImpl => "nestedInImpl"
+  | .noScope => "noScope" | .emptyPath => "emptyPath"
+
+def showSite : Site → String
+  | .moduleScope => "moduleScope" | .implScope => "implScope" | .emptyPath => "emptyPath"
+  | .importTarget => "importTarget" | .nestedUnreachable => "nestedUnreachable"
+
+def showScope (s : List Name) : String := ".".intercalate (s.map toString)
+
+partial def showTy : RotoTy → String
+  | .unit => "()"
+  | .name n => s!"{showScope (n.scope ++ [n.ident])}"
+  | .option t => s!"Option[{showTy t}]"
+  | .list t => s!"List[{showTy t}]"
+  | .verdict a r => s!"Verdict[{showTy a},{showTy r}]"
+  | .result a r => s!"Result[{showTy a},{showTy r}]"
+
+def showDecl : Option Decl → String
+  | none => "none"
+  | some d => match d.kind with
+    | .module => "mod"
+    | .type id => s!"type:{id}"
+    | .prim => "prim"
+    | .function ps r tag => s!"fn:{tag}:({",".intercalate (ps.map showTy)})->{showTy r}"
+    | .method ps r tag => s!"meth:{tag}:({",".intercalate (ps.map showTy)})->{showTy r}"
+    | .const t tag => s!"const:{tag}:{showTy t}"
+    | .other => "other"
+
+def session : P String := do
+  let cfg ← (do let t ← tok; (cfgOf t : Option Cfg))
+  expect "L"; let n ← nat; let codes ← rep nat n
+  expect "P"; let k ← nat; let prims ← rep (do let a ← nat; let b ← nat; pure (a, b)) k
+  expect "O"; let k ← nat; let others ← rep nat k
+  expect "A"; let na ← nat; let libs ← rep items na
+  expect "Q"; let nq ← nat; let qs ← rep path nq
+  let arr := codes.toArray
+  let lex : Name → Lex := fun i => lexOf (arr.getD i 0)
+  let rec go (st : St) (libs : List Items) (acc : List String) : List String × Option St :=
+    match libs with
+    | [] => (acc.reverse, some st)
+    | l :: rest =>
+      match register cfg lex st l with
+      | .ok st' => go st' rest ("ok" :: acc)
+      | .err e => (("err:" ++ showErr e) :: acc |>.reverse, none)
+      | .panic s => (("panic:" ++ showSite s) :: acc |>.reverse, none)
+  let (outs, fin) := go (St.init prims others) libs []
+  let res := match fin with
+    | none => ["-"]
+    | some st => qs.map (fun q => showDecl (resolvePath st q))
+  pure (" ".intercalate outs ++ " | " ++ " ".intercalate res)
+
+def handle (args : List String) : String :=
+  match args with
+  | "session" :: rest =>
+    match session.run rest with
+    | some (s, []) => s
+    | _ => "bad-op"
+  | _ => "bad-op"
 
 end Driver.C18
